@@ -62,7 +62,9 @@ type caseSpec struct {
 	Sizes  []int       `json:"sizes,omitempty"` // chunk op: value lengths of BytesValue items
 }
 
-var zeros = make([]byte, 3<<20)
+// zeros backs every large payload (file contents, BytesValue items) without copying; it bounds the largest item: 40 MiB,
+// ten times gRPC's default receive limit
+var zeros = make([]byte, 40<<20+4096)
 
 func mkFile(fs fileSpec) zoekt.FileMatch {
 	fm := zoekt.FileMatch{FileName: fmt.Sprintf("f%d", fs.ID), Repository: "r", Content: zeros[:fs.Pad]}
@@ -262,6 +264,8 @@ func showForwarded(rs []received) string {
 }
 
 // runChunker: chunk.SendAll on BytesValue items of the given value lengths.
+var chunkerErrors int // chunk.SendAll returned an error although sendFunc never fails
+
 func runChunker(lens []int) (sizes []int, chunks [][]int) {
 	items := make([]*wrapperspb.BytesValue, len(lens))
 	index := map[*wrapperspb.BytesValue]int{}
@@ -279,7 +283,8 @@ func runChunker(lens []int) (sizes []int, chunks [][]int) {
 		return nil
 	}, items...)
 	if err != nil {
-		panic(err)
+		// the only caller (gRPCChunkSender) discards this error: what was handed to sendFunc so far is all the client gets
+		chunkerErrors++
 	}
 	return sizes, chunks
 }
@@ -334,6 +339,7 @@ func emit(w *gen.Writer, cs caseSpec, class string) {
 	case "slowclient":
 		runSlowClient(w, cs.Events, cs.K, class)
 	case "chunk":
+		errsBefore := chunkerErrors
 		sizes, chunks := runChunker(cs.Sizes)
 		ids := make([]int, len(sizes))
 		for i := range ids {
@@ -352,6 +358,9 @@ func emit(w *gen.Writer, cs caseSpec, class string) {
 			impl = strings.Join(p, "|")
 		}
 		verdict, key := chunkOracle(sizes, chunks)
+		if chunkerErrors > errsBefore && verdict == "ok" {
+			verdict, key = "chunk.SendAll failed although the stream did not", "chunker-refuses-items"
+		}
 		w.Emit(gen.Case{
 			In:   fmt.Sprintf("chunk %d %s", maxMsg, showFiles(ids, sizes)),
 			Impl: impl, Go: verdict, Key: key, Class: class, Nontrivial: len(chunks) >= 2, Detail: detail,
@@ -468,6 +477,7 @@ func main() {
 		evs, k := genSlowClientCase(r)
 		runSlowClient(w, evs, k, "slow-client-during-timer-flush")
 	}
+	landmarkCases(w, f)
 	singleCounterCases(w)
 	runEndToEnd(w, r, f)
 }
